@@ -13,6 +13,7 @@ import Mathlib.Analysis.SpecialFunctions.Sqrt
 import Mathlib.Analysis.SpecialFunctions.Trigonometric.ArctanDeriv
 import Mathlib.Analysis.SpecialFunctions.Trigonometric.Deriv
 import Mathlib.Analysis.SpecialFunctions.Trigonometric.InverseDeriv
+import Mathlib.Tactic.FieldSimp
 import Mathlib.Tactic.Linarith
 import Mathlib.Tactic.Ring
 import PV.Gen.Grads
@@ -20,6 +21,7 @@ import PV.Model.Ops
 import PV.Proofs.C01aDeriv
 import PV.Proofs.C01aLemmas
 import PV.Proofs.C01bLemmas
+import PV.Proofs.C01cLemmas
 import PV.Proofs.RealScalar
 import PV.Spec.Propagate
 
@@ -308,19 +310,13 @@ theorem c01_union (hwf : ∀ x ∈ xs, x.WF = true) (h : derivedObs f g xs covEq
     rw [hm]; exact C01b.strictInc_sortedSet _
   rw [hidl, C01b.normOr_toList _ hs', hm, Spec.unionCfgs, C01b.idlsOf, C01b.flatMap_cfgs]
 
-/- C01 (normal form) — ORIGINAL STATEMENT, FALSE AS WRITTEN (see `c01_range_normal_false` below and
-   REPORT.md):
-
-/-- C01 (normal form): a chain of the result is held as a range exactly when its configurations
-    are equally spaced (and there are at least two) -/
-theorem c01_range_normal (hwf : ∀ x ∈ xs, x.WF = true) (h : derivedObs f g xs covEq = .ok o) :
-    ∀ r ∈ o.reps, (r.idl.isRange = true ↔ equallySpaced r.idl.toList = true) := by
-  sorry
-
-   `Obs.WF` admits a chain held as a `range` with fewer than two configurations (e.g.
-   `range 0 1 1`); `mergeIdx` hands such an `idl` through unchanged when all inputs agree, and
-   `Idl.normalise` leaves every range alone, so the result holds a range whose configuration list
-   is not `equallySpaced`. -/
+/- C01 (normal form).  The statement "held as a range exactly when equally spaced" WITHOUT a lower
+   bound on the chain length is false for the model: `Obs.WF` admits a chain held as a `range`
+   with fewer than two configurations (e.g. `range 0 1 1`), `mergeIdx` hands it through unchanged
+   and `Idl.normalise` leaves every range alone (`c01_range_normal_false` below).  The constructor
+   rejects chains with fewer than five samples, so no constructed observable is affected; the
+   theorem that holds is `c01_range_normal_corrected` (range chains of the inputs have >= 2
+   configurations). -/
 
 /-- the counterexample: one input with one chain `"a"` held as `range(0, 1, 1)` -/
 noncomputable def c01_range_normal_cex : Obs ℝ :=
@@ -426,5 +422,39 @@ theorem c01_cov_chain (hlen : g.length = xs.length)
 
 
 end structure_of_result
+
+
+
+/-- C01 (fluctuations): on every configuration `c` of the union of chain `n`, the fluctuation of
+    the result is Σ_j (∂f/∂x_j) · w_j(n) · δ_j(n, c), where δ_j(n, c) is input j's fluctuation on
+    *that configuration number* of *that chain* (zero if j was not measured there) and
+    w_j(n) = (union size / own size) · (ensemble size / size of the replicas j has).
+    The right-hand side never mentions array positions. -/
+theorem c01_delta (f : List ℝ → ℝ) (g : List ℝ) (xs : List (Obs ℝ))
+    (covEq : List (List ℝ) → List (List ℝ) → Bool) (o : Obs ℝ)
+    (hwf : ∀ x ∈ xs, x.WF = true) (hlen : g.length = xs.length)
+    (h : derivedObs f g xs covEq = .ok o) :
+    ∀ n ∈ newSampleNames xs, ∀ c ∈ Spec.unionCfgs xs n,
+      o.delta? n c = some (Spec.delta g xs n c) := by
+  intro n hn c hc
+  have _ := hlen  -- implied by `h` (the model checks the gradient length itself); not needed
+  have ho : o = derivedCore f g xs (match collectCov covEq (xs.flatMap (·.covs)) [] with
+      | .ok a => a | .error _ => []) := by
+    unfold derivedObs at h
+    split at h
+    · cases h
+    · split at h
+      · cases h
+      · split at h
+        · cases h
+        · rename_i heq _
+          simp only [heq]
+          cases h; rfl
+  rw [ho]
+  obtain ⟨r, hr, hidl, hdel⟩ := derivedCore_rep f g xs _ n hn
+  rw [merged_toList xs hwf n] at hidl
+  rw [newDeltas_eq g xs hwf n, ← hidl] at hdel
+  exact delta?_of_map _ n r hr _ hdel c (by rw [hidl]; exact hc)
+
 
 end PV
